@@ -251,3 +251,70 @@ def coq_config(cfg, poll_every=100, stop_at=None):
 def vm_line(code, cfg, poll_every=100, stop_at=None):
     gas, it, fk, sz, mem, perm = cfg
     return "%s %d %d %d %d %d %d %d %d" % (code.hex(), gas, it, fk, sz, mem, perm, poll_every, -1 if stop_at is None else stop_at)
+
+
+def loop_programs(rng, bw, n):
+    """programs whose control flow stresses the execution bounds"""
+    out = []
+    for _ in range(n):
+        kind = rng.randrange(9)
+        a = Asm()
+        if kind == 0:      # tight loop / self jump
+            a.label("L").push_label("L").op("JUMP")
+        elif kind == 1:    # loop whose body grows the stack
+            a.label("L")
+            for _ in range(rng.randrange(1, 4)):
+                a.push(small_or_boundary(rng, bw))
+            a.push_label("L").op("JUMP")
+        elif kind == 2:    # conditional back edge(s): fork at the loop head every round
+            a.push(rng.randrange(3)).label("L")
+            for _ in range(rng.randrange(0, 3)):
+                a.push(1).op("ADD")
+            a.raw([0x80]).push_label("L").op("JUMPI")
+            if rng.random() < 0.5:
+                a.push_label("L").op("JUMP")
+            a.op("STOP")
+        elif kind == 3:    # nested loops
+            a.label("A").push(1).label("B").push(1).op("ADD").raw([0x80]).push_label("B").op("JUMPI")
+            a.op("POP").push(rng.randrange(2)).push_label("A").op("JUMPI").op("STOP")
+        elif kind == 4:    # fork bomb: chain of JUMPI to shared targets
+            k = rng.randrange(2, 7)
+            for i in range(rng.randrange(3, 12)):
+                a.op("CALLVALUE").push_label("T%d" % rng.randrange(k)).op("JUMPI")
+            a.op("STOP")
+            for i in range(k):
+                a.label("T%d" % i)
+                if rng.random() < 0.5:
+                    a.op("CALLER").push_label("T%d" % rng.randrange(k)).op("JUMPI")
+                a.push(i).push(i).op("SSTORE")
+                if rng.random() < 0.3:
+                    a.push_label("T%d" % rng.randrange(k)).op("JUMP")
+                else:
+                    a.op("STOP")
+        elif kind == 5:    # jump table
+            k = rng.randrange(2, 6)
+            a.push(0).op("CALLDATALOAD")
+            for i in range(k):
+                a.raw([0x80]).push(i).op("EQ").push_label("C%d" % i).op("JUMPI")
+            a.op("STOP")
+            for i in range(k):
+                a.label("C%d" % i).push(i).op("SLOAD").op("POP")
+                if rng.random() < 0.4:
+                    a.push_label("C%d" % rng.randrange(k)).op("JUMP")
+                else:
+                    a.op("STOP")
+        elif kind == 6:    # storage read-mask-write in a loop (cyclic type evidence)
+            slot = rng.randrange(4)
+            a.label("L").push(slot).op("SLOAD").push(rng.choice([0xff, 0xffff, 2 ** 160 - 1, 2 ** 128 - 1])).op("AND")
+            a.push(rng.choice([1, 2, 0x100])).op(rng.choice(["ADD", "MUL", "OR"])).push(slot).op("SSTORE")
+            a.op("CALLVALUE").push_label("L").op("JUMPI").op("STOP")
+        elif kind == 7:    # loop squaring / hashing a running value
+            a.push(3).label("L").raw([0x80]).op(rng.choice(["MUL", "ADD", "EXP"]))
+            if rng.random() < 0.5:
+                a.push(0).op("MSTORE").push(32).push(0).op("SHA3")
+            a.push_label("L").op("JUMP")
+        else:              # random program with loops
+            out.append(random_program(rng, bw, n_ops=rng.choice([10, 25, 50]), hostile=0.05))
+            continue
+        out.append(a.assemble())
+    return out
